@@ -86,9 +86,14 @@ def capp (c d : CSeq) : CSeq := c ++ d
 /-- `c[:k]` for `0 ≤ k` (python slicing with `k ≤ len c`; for `k < 0` this is `[]`) -/
 def ctake (c : CSeq) (k : ℤ) : CSeq := c.take k.toNat
 /-- `itertools.combinations(s, k)` as a list of clauses.  `List.sublistsLen` enumerates the
-    `k`-element sublists in a different ORDER than itertools (which is lexicographic in positions);
-    none of the schemas currently stated in specs.py depends on the order (they speak about
-    `sat`, `cmaxabs`, `chaszero` of the whole family only), so the order is irrelevant here. -/
+    `k`-element sublists in a different ORDER than itertools (itertools is lexicographic in
+    positions; `List.sublistsLen 2 [1,2,3,4] = [[3,4],[2,4],[2,3],[1,4],[1,3],[1,2]]`, i.e. the
+    reverse on this example).  None of the schemas currently stated in specs.py depends on the
+    order: they only speak about `sat`, `cmaxabs`, `chaszero` of the whole family, which are
+    invariant under permutation of the clauses.  If a schema about `cget(combs(..), i)` or
+    `ctake(combs(..), k)` is ever added, this definition must be revisited.
+    For `k < 0` python raises ValueError whereas this gives `[[]]`; the unguarded schemas
+    (`combs_maxabs_le`, `combs_no_zero`) hold for that value as well. -/
 def combs (s : ISeq) (k : ℤ) : CSeq := List.sublistsLen k.toNat s
 /-- z3 `sat`: every clause true -/
 def sat (α : Asg) (c : CSeq) : Prop := ∀ s ∈ c, ctrue α s
